@@ -318,7 +318,17 @@ def deviant_set(deep, seed=0):
         rei = [x for x in out if x[0].startswith('edge/reinject')]
         asym = [x for x in out if x[0].startswith('asym')]
         rest = [x for x in out if not x[0].startswith(('dev', 'edge/reinject', 'asym'))]
-        out = (rng.sample(dev, len(dev) // 4) + rng.sample(rei, len(rei) // 3) + rng.sample(asym, len(asym) // 3) + rest)
+        # ... except for a fixed core of deviations that each reach a validation branch of their own (kept in every run)
+        core_keys = ('auth/sa_spi_short', 'new_child/child/sa_spi_short', 'child/sa_spi_long', 'auth/sa_foreign_first',
+                     'new_child/child/sa_foreign_first', 'auth/sa_two_proposals', 'rekey_child/child/sa_two_proposals',
+                     'devB/new_child/child/ts_wider', 'devB/handshake/auth/mode_flip', 'devA/handshake/auth/ts_wider',
+                     'auth/id_case', 'old_sa_child_request', 'stateless_invalid_ke', 'unsolicited_response/37',
+                     'devB/new_child/child/exch_37', 'rekey_unknown_spi', 'devB/rekey_ike/child/no_additional_sas',
+                     'devB/dpd/info/add_error_notify', 'devA/delete_child/info/delete_unknown_spi')
+        core = [x for x in dev if any(k in x[0] for k in core_keys)]
+        others = [x for x in dev if x not in core]
+        out = (core + rng.sample(others, len(others) // 6) + rng.sample(rei, len(rei) // 3)
+               + rng.sample(asym, len(asym) // 3) + rest)
     return out
 
 
